@@ -394,27 +394,23 @@ def unit_gym_adapter(S):
     st2, key2, out = run(ctx, do_step, env_in, s_in, k_in, a_in)
     # the key handed to env.step: candidates = keys reaching env.transition's ancestors; recover it as the hole of env.step
     hk, hc = kit.key_input("hole_step")
-    cands = []
-    split = ctx.uf("split", [ir.KeySort, z3.IntSort(), z3.IntSort()], ir.KeySort)
-    for n in (2,):
-        for i in range(n):
-            cands.append(split(kc, z3.IntVal(n), z3.IntVal(i)))
+    # candidates for 'the key handed to env.step' / 'the adapter's next key': every key term derived from self.key that occurs in the adapter's results (any derivation)
+    cands = kit.key_subterms(kit.leaves((st2, key2, out)), must_contain=[kc], limit=6)
     spec = run(ctx, lambda e, s, a, k: e.step(s, a, key=k), env_in, s_in, a_in, hk)
     goal = sand(kit.tree_eq(st2, spec[0]), kit.tree_eq(out, tuple(spec[1:])))
-    S.prove("LeraxToGymEnv.step/delegates", ctx, goal, holes={hc: cands}, function=fn_step, replay=native_gym_adapter_replay,
-            what="adapter's new state and returned (obs, reward, terminated, truncated, info) are env.step(self.state, action, key=k), k split from self.key")
+    rec_d = S.prove("LeraxToGymEnv.step/delegates", ctx, goal, holes={hc: cands}, function=fn_step, replay=native_gym_adapter_replay,
+                    what="adapter's new state and returned (obs, reward, terminated, truncated, info) are env.step(self.state, action, key=k), k derived from self.key")
+    step_key = (rec_d.get("_hole_terms") or [None])[0] if rec_d is not None and rec_d.get("status") == "discharged" else None
     hn, hnc = kit.key_input("hole_next")
-    distinct = cands[0] != cands[1]  # A-RNG: split is injective in the index
-    S.prove("LeraxToGymEnv.step/key-advances", ctx, sand(goal, key2.scalar() == hnc, hnc != hc), hyps=[distinct],
-            holes={hc: cands, hnc: cands}, function=fn_step,
+    S.prove("LeraxToGymEnv.step/key-advances", ctx, sand(goal, key2.scalar() == hnc, hnc != hc), hyps=kit.rng_ground_injectivity(cands),
+            holes={hc: ([step_key] if step_key is not None else cands), hnc: cands}, function=fn_step,
             what="self.key is replaced by one half of split(self.key); the other half (a different key) drives env.step")
     ctx = Ctx()
     env_in = sym(ctx, "env", base)
     k_in, kc = kit.key_input("selfkey")
     st2, key2, out = run(ctx, do_reset, env_in, k_in)
     hk, hc = kit.key_input("hole_reset")
-    split = ctx.uf("split", [ir.KeySort, z3.IntSort(), z3.IntSort()], ir.KeySort)
-    cands = [split(kc, z3.IntVal(2), z3.IntVal(i)) for i in range(2)]
+    cands = kit.key_subterms(kit.leaves((st2, key2, out)), must_contain=[kc], limit=6)
     spec = run(ctx, lambda e, k: e.reset(key=k), env_in, hk)
     goal = sand(kit.tree_eq(st2, spec[0]), kit.tree_eq(out, tuple(spec[1:])))
     S.prove("LeraxToGymEnv.reset/delegates", ctx, goal, holes={hc: cands}, function=fn_reset, replay=native_gym_adapter_replay,
